@@ -1,0 +1,30 @@
+//go:build verif
+
+// Contracts for package appcore, checked by /verif/govc (see /verif/DESIGN.md).
+// This file contains only comments; it is compiled only with -tags verif and
+// has no effect on the package.
+
+package appcore
+
+// Fan-out stage: every message received from the file handler's message channel is
+// sent, as a value and in order, to every non-nil consumer channel; nothing else is
+// sent and no channel is closed here.  fwd is the number of messages forwarded (all
+// received ones, except a final stop message).
+//@ func (*AppCore).HandleMessagesUntilEOF
+//@ requires[C07] appCore != nil
+//@ requires[C09] forall(i, 0, len(appCore.Channels), forall(j, 0, len(appCore.Channels), i != j && appCore.Channels[i] != nil ==> appCore.Channels[i] != appCore.Channels[j]))
+//@ requires[C07] forall(i, 0, len(appCore.Channels), appCore.Channels[i] != nil ==> !closed(appCore.Channels[i]))
+//@ modifies sentall(appCore.Channels)
+//@ ensures[C09] result == 0 || result == 1
+//@ ensures[C09] result == 0 ==> recvd(messageChan) == feedlen(messageChan)
+//@ ensures[C09] forall(i, 0, len(appCore.Channels), appCore.Channels[i] != nil ==> sentn(appCore.Channels[i]) == old(sentn(appCore.Channels[i])) + recvd(messageChan) - result)
+//@ ensures[C09] forall(i, 0, len(appCore.Channels), appCore.Channels[i] != nil ==> forall(k, 0, recvd(messageChan) - result, sent(appCore.Channels[i])[old(sentn(appCore.Channels[i])) + k] == feed(messageChan)[k]))
+//@ loop 1
+//@ invariant[C09] messageChan != nil && fresh(messageChan) && recvd(messageChan) <= feedlen(messageChan)
+//@ invariant[C09] forall(i, 0, len(appCore.Channels), appCore.Channels[i] != nil ==> sentn(appCore.Channels[i]) == old(sentn(appCore.Channels[i])) + recvd(messageChan))
+//@ invariant[C09] forall(i, 0, len(appCore.Channels), appCore.Channels[i] != nil ==> forall(k, 0, recvd(messageChan), sent(appCore.Channels[i])[old(sentn(appCore.Channels[i])) + k] == feed(messageChan)[k]))
+//@ decreases[C07,C09] feedlen(messageChan) - recvd(messageChan)
+//@ loop 2
+//@ invariant[C09] messageChan != nil && fresh(messageChan) && recvd(messageChan) <= feedlen(messageChan) && recvd(messageChan) >= 1 && message == feed(messageChan)[recvd(messageChan) - 1]
+//@ invariant[C09] forall(i, 0, len(appCore.Channels), appCore.Channels[i] != nil ==> sentn(appCore.Channels[i]) == old(sentn(appCore.Channels[i])) + recvd(messageChan) - ite(i <= rangeindex, 0, 1))
+//@ invariant[C09] forall(i, 0, len(appCore.Channels), appCore.Channels[i] != nil ==> forall(k, 0, recvd(messageChan) - ite(i <= rangeindex, 0, 1), sent(appCore.Channels[i])[old(sentn(appCore.Channels[i])) + k] == feed(messageChan)[k]))
